@@ -1,3 +1,191 @@
-/-! # C08 — property theorems (stub: filled in when the property's model is built) -/
+import ScenicModel.Props.C08Bounds
+import ScenicModel.Props.C08Heading
+import ScenicModel.Props.C08Geom
+import ScenicModel.Props.C08Cond
+import ScenicModel.Gen.Pruning
+
+/-!
+# C08 — pruning never changes which scenes can be generated
+
+Property theorems instantiated on the data regenerated from /repo (`Gen/Pruning.lean`, rewritten by
+`tools/translate/pruning.py` on every check run).  The `gen_*` side conditions are re-decided by the
+kernel on that data; when the source changes so that one of them becomes false the build breaks and
+the check searches the real code for a failing input.
+
+Full statement of the property (not provable as one theorem: shapely buffering, trimesh
+voxelisation and mesh booleans are outside the model — their over-approximation claims are checked
+on the real code by the direct oracle):
+
+  for every program and every accepted sample ω of the unpruned program, ω's base point lies in the
+  pruned region; pruning adds no scene; compilation terminates and does not report a satisfiable
+  program infeasible.
+
+What is proved here, for all inputs:
+  * `bounds_sound`, `inconsistency_sound`, `nonordering_no_bound`  (requirement syntax → intervals)
+  * `rh_range_sound`, `cell_pair_kept`                              (relative-heading pruning)
+  * `erosion_sound`, `visibility_buffer_sound`                      (metric side conditions)
+  * `erode_passes_sound`, `erode_count_sound`, `dilate_passes_sound`, `dilate_count_sound_partial`
+  * `buffer_retry_terminates`, `erode_retry_diverges` / `erode_retry_terminates`
+  * `prune_preserves_cond`, `prune_no_new_scenes`, `rejection_output_conditional`
+-/
 namespace Scenic.C08
+open Scenic.Pruning Scenic.Gen
+
+/-! ## side conditions on the generated data -/
+
+theorem gen_dispatch_wf : pruneDispatch.WF = true := by decide
+
+theorem gen_rh_sound :
+    rhConfig.Sound = true ∧ rhGuardInclusive = true ∧ overlapSound rhOverlapOps = true := by decide
+
+theorem gen_amounts : erosionUsesDifference = true ∧ visibilityBufferIsSum = true := by decide
+
+theorem gen_erode_count : erodeCount.Sound = true ∧ erodeNegates = true := by decide
+
+theorem gen_dilate_plus : (0 : Int) ≤ dilateCount.plus := by decide
+
+theorem gen_buffer_loop :
+    bufferLoop.passesCurrentPitch = true ∧ bufferLoop.stopsAtMaxPitch = true ∧
+      (0 : Rat) < pruningPitch ∧ 1 ≤ pruningPitch * 2 ^ 3 := by decide +kernel
+
+/-! ## requirement syntax → bounds -/
+
+/-- every value satisfying the requirement lies in the extracted interval (current dispatch table) -/
+theorem bounds_sound (e : Env) (first : Expr) (rest : List (CmpOp × Expr)) (bs : Bounds)
+    (hr : matchBounds pruneDispatch first rest = .ok bs) (hok : chainOk e first rest)
+    (hh : chainHolds e first rest) : ∀ t b, (t, b) ∈ bs → inBound b (e.q t) :=
+  Pruning.bounds_sound gen_dispatch_wf e first rest bs hr hok hh
+
+example : matchBounds pruneDispatch (.leaf ⟨some 1, none, 0⟩)
+    [(.lt, .leaf ⟨none, some 7, 1⟩), (.ltE, .leaf ⟨some 5, none, 2⟩)] = .ok [(7, (some 1, some 5))] := by
+  decide +kernel
+
+/-- an `InconsistentScenarioError` from the matcher means the requirement is unsatisfiable -/
+theorem inconsistency_sound (e : Env) (first : Expr) (rest : List (CmpOp × Expr))
+    (hr : matchBounds pruneDispatch first rest = .error ()) (hok : chainOk e first rest) :
+    ¬ chainHolds e first rest :=
+  Pruning.inconsistency_sound gen_dispatch_wf e first rest hr hok
+
+example : matchBounds pruneDispatch (.abs1 ⟨none, some 7, 0⟩) [(.lt, .leaf ⟨some (-1), none, 1⟩)]
+    = .error () := by decide +kernel
+
+/-- `abs(Q) > -1` (always true) must not raise: the guard comes before the sign check -/
+example : matchBounds pruneDispatch (.abs1 ⟨none, some 7, 0⟩) [(.gt, .leaf ⟨some (-1), none, 1⟩)]
+    = .ok [] := by decide +kernel
+
+theorem nonordering_no_bound (left right : Expr) (op : CmpOp)
+    (hop : op = .notEq ∨ op = .is ∨ op = .isNot ∨ op = .in_ ∨ op = .notIn) :
+    matchBoundsInner pruneDispatch left right op = .none :=
+  Pruning.nonordering_no_bound gen_dispatch_wf left right op hop
+
+/-- **regression witness for 0216aa9a**: with the old dispatch (no operator filter) `5 != Q` gave the
+    lower bound 5, violated by `Q = 0`. -/
+theorem old_dispatch_unsound :
+    let D : Dispatch := { pruneDispatch with boundOps := [.lt, .ltE, .eq, .notEq, .is, .isNot, .in_, .notIn] }
+    matchBounds D (.leaf ⟨some 5, none, 0⟩) [(.notEq, .leaf ⟨none, some 0, 1⟩)]
+        = .ok [(0, (some 5, none))] ∧ (5 : Rat) ≠ 0 ∧ ¬ ((5 : Rat) ≤ 0) := by
+  decide +kernel
+
+/-! ## relative headings -/
+
+theorem rh_range_sound {P : Rat} (hP : 0 < P) (bh oL oR th tL tR d e : Rat)
+    (hd1 : oL ≤ d) (hd2 : d ≤ oR) (he1 : tL ≤ e) (he2 : e ≤ tR)
+    (hw : oR - oL < 2 * P) (htw : tR - tL < 2 * P) (rh : Rat) (hr1 : -P < rh) (hr2 : rh < P)
+    (hrh : ∃ k : Int, rh = (th + e) - (bh + d) + 2 * P * (k : Rat)) :
+    (relativeHeadingRange rhConfig P (some bh) oL oR (some th) tL tR).1 ≤ rh ∧
+      rh ≤ (relativeHeadingRange rhConfig P (some bh) oL oR (some th) tL tR).2 :=
+  Pruning.rh_range_sound_interior gen_rh_sound.1 hP bh oL oR th tL tR d e hd1 hd2 he1 he2 hw htw rh hr1 hr2 hrh
+
+/-- headings 0.95 and −0.95 half-turns: the true relative heading 0.1 lies in the returned range -/
+example : (relativeHeadingRange rhConfig 1 (some (19/20)) 0 0 (some (-19/20)) 0 0) = (1/10, 1/10) := by
+  decide +kernel
+
+theorem cell_pair_kept {P : Rat} (hP : 0 < P) (bh oL oR th tL tR d e lowerBound upperBound : Rat)
+    (hguard : rhGuardTrips rhGuardInclusive P oL oR tL tR lowerBound upperBound = false)
+    (hd1 : oL ≤ d) (hd2 : d ≤ oR) (he1 : tL ≤ e) (he2 : e ≤ tR)
+    (rh : Rat) (hr1 : -P < rh) (hr2 : rh < P)
+    (hrh : ∃ k : Int, rh = (th + e) - (bh + d) + 2 * P * (k : Rat))
+    (hreq1 : lowerBound ≤ rh) (hreq2 : rh ≤ upperBound) :
+    cellPairKept rhConfig rhOverlapOps rhOverlapConj P (some bh) oL oR (some th) tL tR lowerBound upperBound
+      = true := by
+  rw [gen_rh_sound.2.1] at hguard
+  exact Pruning.cell_pair_kept gen_rh_sound.1 rhOverlapConj gen_rh_sound.2.2 hP bh oL oR th tL tR d e
+    lowerBound upperBound hguard hd1 hd2 he1 he2 rh hr1 hr2 hrh hreq1 hreq2
+
+/-! ## erosion / dilation -/
+
+/-- the erosion amount used by `pruneContainment` is `minRadius − maxDistance`, only when positive -/
+theorem erosion_amount_spec {r d e : Rat}
+    (h : erosionAmount erosionUsesDifference (some r) (some d) = some e) : e = r - d ∧ 0 < e := by
+  rw [gen_amounts.1] at h; exact erosionAmount_spec h
+
+example : erosionAmount erosionUsesDifference (some (3/2)) (some (1/2)) = some 1 := by decide +kernel
+
+theorem visibility_buffer_spec (radius d : Rat) :
+    visibilityBuffer visibilityBufferIsSum radius d = radius + d := by
+  rw [gen_amounts.2]; rfl
+
+/-- the pass count of `_erodeOverapproximate` never erodes by more than `maxErosion` -/
+theorem erode_count_sound (maxErosion pitch targetPitch : Rat) (hr : 0 ≤ maxErosion) (hp : 0 < targetPitch) :
+    match erodeMorph erodeCount erodeNegates maxErosion pitch targetPitch with
+    | .erode k => 3 * ((k : Rat) * (k : Rat)) * (targetPitch * targetPitch) ≤ maxErosion * maxErosion
+    | _ => True := by
+  rw [gen_erode_count.2]
+  exact Pruning.erode_count_sound gen_erode_count.1 maxErosion pitch targetPitch hr hp
+
+example : erodeMorph erodeCount erodeNegates 4 (3/20) 1 = .erode 1 := by decide +kernel
+example : erodeMorph erodeCount erodeNegates 1 (3/20) 1 = .dilate 1 := by decide +kernel
+
+/-- the pass count of `_bufferOverapproximate` dilates by at least `minBuffer` when the voxel edge is at
+    least the relative pitch (largest mesh extent ≥ 1) — or for every mesh once the divisor is the voxel
+    edge.  Full statement (every mesh) is false for the current source: `dilate_relative_pitch_underbuffers`. -/
+theorem dilate_count_sound_partial (minBuffer pitch targetPitch : Rat) (hb : 0 ≤ minBuffer) (hp : 0 < pitch)
+    (hext : pitch ≤ targetPitch) :
+    minBuffer ≤ ((dilatePasses dilateCount minBuffer pitch targetPitch : Int) : Rat) * targetPitch :=
+  Pruning.dilate_count_sound_partial gen_dilate_plus minBuffer pitch targetPitch hb hp hext
+
+/-! ## retry loops -/
+
+/-- the `while buffered_container is None` loop of `bufferHelper` ends within 4 iterations whatever the
+    voxel→mesh conversion does -/
+theorem buffer_retry_terminates (conv : Rat → Bool) :
+    ∃ m, m ≤ 4 ∧ retryLoop bufferLoop conv pruningPitch 4 pruningPitch = some m :=
+  retry_loop_terminates bufferLoop gen_buffer_loop.1 gen_buffer_loop.2.1 conv pruningPitch 3 gen_buffer_loop.2.2.2
+
+/-- the `while eroded_container is None` loop of `pruneContainment`: if it neither gives up at pitch 1 nor
+    passes the doubled pitch on (the source today), a conversion that fails once fails forever -/
+theorem erode_retry_diverges
+    (h : erodeLoop.stopsAtMaxPitch = false ∨ (erodeLoop.passesCurrentPitch = false ∧ pruningPitch < 1))
+    (conv : Rat → Bool) (hconv : ∀ p, conv p = false) (fuel : Nat) :
+    retryLoop erodeLoop conv pruningPitch fuel pruningPitch = none :=
+  retry_loop_diverges erodeLoop conv pruningPitch h hconv fuel pruningPitch
+
+/-- … and once it does both, it always ends -/
+theorem erode_retry_terminates (h1 : erodeLoop.passesCurrentPitch = true) (h2 : erodeLoop.stopsAtMaxPitch = true)
+    (conv : Rat → Bool) : ∃ m, m ≤ 4 ∧ retryLoop erodeLoop conv pruningPitch 4 pruningPitch = some m :=
+  retry_loop_terminates erodeLoop h1 h2 conv pruningPitch 3 gen_buffer_loop.2.2.2
+
+example : retryLoop ⟨true, true⟩ (fun _ => false) (3/20) 4 (3/20) = some 4 := by decide +kernel
+example : retryLoop ⟨false, false⟩ (fun _ => false) (3/20) 50 (3/20) = none := by decide +kernel
+
+/-! ## conditioning -/
+
+/-- pruning to a region containing every accepted sample leaves the conditional distribution unchanged -/
+theorem prune_preserves_cond {Ω : Type} (d : Pruning.Dist Ω) (keep acc E : Ω → Bool) (c : Rat) (hc : c ≠ 0)
+    (h : ∀ ω, acc ω = true → keep ω = true) :
+    ((d.restrict keep).scale c).cond acc E = d.cond acc E :=
+  Pruning.prune_preserves_cond d keep acc E c hc h
+
+/-- six equally likely positions 0..5, accepted: {2,3}; pruned region {1,2,3,4}: P(position = 2 | accepted) = 1/2 -/
+example :
+    let d : Pruning.Dist Nat := [(0, 1), (1, 1), (2, 1), (3, 1), (4, 1), (5, 1)]
+    let acc : Nat → Bool := fun n => n == 2 || n == 3
+    let keep : Nat → Bool := fun n => 1 ≤ n && n ≤ 4
+    ((d.restrict keep).scale (3/2)).cond acc (· == 2) = 1/2 ∧ d.cond acc (· == 2) = 1/2 := by
+  decide +kernel
+
+theorem prune_no_new_scenes {Ω : Type} (d : Pruning.Dist Ω) (keep : Ω → Bool) (c : Rat) (x : Ω × Rat)
+    (hx : x ∈ (d.restrict keep).scale c) : ∃ w, (x.1, w) ∈ d ∧ keep x.1 = true ∧ x.2 = c * w :=
+  Pruning.prune_no_new_scenes d keep c x hx
+
 end Scenic.C08
